@@ -19,7 +19,7 @@ var c13Weights = core.OpWeights{
 func genC13(t *rapid.T, tier string) HistCase {
 	return genHist(t, tier, core.GenOpts{
 		Caches: []string{"none", "none", "big", "arc", "tiny2"},
-		Vals:   []string{core.VInt, core.VString, core.VBytes},
+		Vals:   []string{core.VInt, core.VString, core.VBytes, core.VLong},
 	}, c13Weights, 70, 140, 44, 2)
 }
 
